@@ -16,11 +16,11 @@ import (
 func init() { reg("C04", "main", c04main) }
 
 type c04case struct {
-	name   string
-	msg    string
-	lvl    slog.Level
-	caller bool
-	kvs    []gen.KV
+	name     string
+	msg      string
+	lvl      slog.Level
+	caller   bool
+	kvs      []gen.KV
 	attrVals int
 }
 
@@ -97,9 +97,27 @@ func c04main(c *Ctx) {
 		// the other presentation flags must not matter for validity: any combination
 		otherFlags := randomOtherFlags(r)
 		lg := newRoot(cs.name, FJSON, w, slog.AlwaysLevel)
+		desc0 := randomTimestampOptions(r, lg)
+		// a logger is not always in JSON mode from its first record: the same object may have logged in another
+		// format (or in JSON already) before the record that is judged
+		warm := r.Intn(5)
+		switch warm {
+		case 2:
+			lg.SetColorMode(false)
+			lg.Info("warm-up record in logfmt", "w", 1)
+			lg.SetJSONMode(true)
+		case 3:
+			lg.SetColorMode(true)
+			lg.Warn("warm-up record in colour\nsecond line", "w", 1)
+			lg.SetJSONMode(true)
+		case 4:
+			lg.Info("warm-up record in JSON", "w", "x")
+		}
 		evs := capture(log, func() { lg.LogAttrs(bg, cs.lvl, cs.msg, anyAttrs(cs.kvs)...) })
 		desc := describe(FJSON, cs.name, cs.msg, cs.lvl, cs.caller, cs.kvs)
-		desc["other_flags"] = otherFlags
+		desc["logger_timestamp_options"] = desc0
+		desc["other_flags"], desc["same_logger_logged_before_in"] = otherFlags, []string{"-", "-", "logfmt", "color", "json"}[warm]
+		c.R.Distinct("same_logger_logged_before_in", []string{"-", "-", "logfmt", "color", "json"}[warm])
 		c.R.Add("write_events", int64(len(evs)))
 		if len(evs) != 1 || evs[0].Kind != mon.EvWrite {
 			c.R.Violation(idx, "one-write", "C04/one-write", fmt.Sprintf("expected exactly one Write, saw %s", fmtEvents(evs)), desc)
